@@ -154,12 +154,23 @@ def mutants(src):
     import re
 
     out = []
+    # mutate code only: skip the docstring (a pattern like `return -1` may occur in it, giving an equivalent "mutant")
+    body_start = 0
+    try:
+        import ast as _ast
+
+        fd = _ast.parse(src).body[0]
+        if fd.body and isinstance(fd.body[0], _ast.Expr) and isinstance(getattr(fd.body[0], "value", None), _ast.Constant) and isinstance(fd.body[0].value.value, str):
+            body_start = sum(len(l) + 1 for l in src.split("\n")[:fd.body[0].end_lineno])
+    except SyntaxError:
+        pass
+    head, src = src[:body_start], src[body_start:]
     for pat, rep, label in ((r" \+ 1\b", "", "drop +1"), (r"== -1", "!= -1", "flip sentinel test"), (r"\[0, index\]", "[1, index]", "row swap"),
                             (r" < ", " > ", "flip <"), (r"return -1", "return 0", "wrong sentinel"), (r"index1 \+ start", "index1", "drop offset"),
                             (r"val1, val2 = val2, val1", "val1, val2 = val1, val2", "no swap"), (r"if edge_tuple not in", "if edge_tuple in", "flip membership")):
         m = re.search(pat, src)
         if m:
-            out.append((label, src[:m.start()] + rep + src[m.end():]))
+            out.append((label, head + src[:m.start()] + rep + src[m.end():]))
     return out
 
 
